@@ -1,8 +1,11 @@
 #!/bin/bash
-# tools/run_all.sh <tier> [Cxx ...]   runs the checks one after the other, one summary line each
+# tools/run_all.sh <tier> [Cxx ...]   runs the checks one after the other, one summary line each.
+# Works from any checkout of /verif (evidence and replays go into that checkout).
 TIER="$1"; shift
-cd /verif
+ROOT="$(cd "$(dirname "$0")/.." && pwd)"
+cd "$ROOT"
+export VERIF_DIR="$ROOT"
 [ $# -eq 0 ] && set -- C01 C02 C03 C04 C05 C06 C07 C08 C09 C10 C11 C12 C13 C14 C15 C16 C17 C18
-mkdir -p /tmp/vplogs
-for c in "$@"; do s=$(date +%s); ./check $c --tier $TIER > /tmp/vplogs/${TIER}_$c.log 2>&1; rc=$?; e=$(date +%s)
-  echo "$c rc=$rc $((e-s))s $(grep -E "$TIER:" /tmp/vplogs/${TIER}_$c.log | tail -1 | cut -c1-170) $(grep -c '^KNOWN-FINDING' /tmp/vplogs/${TIER}_$c.log)kf"; done
+LOGS="${VPLOGS:-/tmp/vplogs}"; mkdir -p "$LOGS"
+for c in "$@"; do s=$(date +%s); ./check $c --tier $TIER > "$LOGS/${TIER}_$c.log" 2>&1; rc=$?; e=$(date +%s)
+  echo "$c rc=$rc $((e-s))s $(grep -E "$TIER:" "$LOGS/${TIER}_$c.log" | tail -1 | cut -c1-170) $(grep -c '^KNOWN-FINDING' "$LOGS/${TIER}_$c.log")kf"; done
